@@ -427,8 +427,38 @@ def r05_5(ctx, repo):
                     'dimensions' % '; '.join(missing))
                 break
         else:
-            ctx.ok(rule, where, construct,
-                   'reduce=True returns (score, f(dpsi, ...)) — the upstream '
-                   'sensitivities are carried into the hierarchical form')
+            # axis-wise: the reduced form sums over individuals only
+            from ..shapes import ShapeLifter, Arr, Ax
+            from .layout import (sym, N_DIM, R_OBS, _class_invariants,
+                                 _emit_events)
+            inv = _class_invariants(repo, cls) if cls != 'PopulationModel' \
+                else {}
+            P = inv.get('self._n_parameters')
+            npd = sp.cancel(P / N_DIM) if isinstance(P, sp.Expr) \
+                else sym('n_param_per_dim')
+            mixed = 0
+            for flat in (True, False):
+                lf = ShapeLifter(repo, cls, flags={'reduce': True,
+                                                   'flattened': flat})
+                lf.check_mix = True
+                env = dict(inv)
+                env.update({'score': sp.Symbol('score'),
+                            'dpsi': Arr([Ax(R_OBS), Ax(N_DIM)]),
+                            'dtheta': Arr([Ax(R_OBS), Ax(npd), Ax(N_DIM)]),
+                            'reduce': True, 'flattened': flat})
+                try:
+                    lf._block(fn.body, env, fn, 0, cls)
+                except Exception:
+                    continue
+                lf.events = [e for e in lf.events if 'are mixed' in e.msg]
+                mixed += _emit_events(ctx, rule, repo, cls, fn, lf,
+                                      construct)
+                if mixed:
+                    break
+            if not mixed:
+                ctx.ok(rule, where, construct,
+                       'reduce=True returns (score, f(dpsi, ...)) — the '
+                       'upstream sensitivities are carried into the '
+                       'hierarchical form, summed over individuals only')
     if n < 3:
         ctx.error(rule, 'only %d _shape implementations found (floor 3)' % n)
